@@ -35,3 +35,22 @@ Fixpoint list_eqb {A} (eqb : A -> A -> bool) (x y : list A) : bool :=
   | a :: x', b :: y' => eqb a b && list_eqb eqb x' y'
   | _, _ => false
   end.
+
+(** Decimal rendering, for tags such as "corr:step 12: balances". *)
+From Coq Require Import DecimalString.
+Definition N_to_string (n : N) : string := NilZero.string_of_uint (N.to_uint n).
+Definition Z_to_string (z : Z) : string := NilZero.string_of_int (Z.to_int z).
+Definition nat_to_string (n : nat) : string := N_to_string (N.of_nat n).
+
+(** [first_failure f l] runs a per-step checker over a history and reports the failures of the
+    first step that has any, prefixed by the step number: a history's verdict then also names
+    the minimal failing prefix. *)
+Fixpoint first_failure {A} (f : A -> list string) (i : N) (l : list A) : list string :=
+  match l with
+  | [] => []
+  | x :: r =>
+      match f x with
+      | [] => first_failure f (N.succ i) r
+      | e => map (fun t => t ++ " @step " ++ N_to_string i) e
+      end
+  end.
